@@ -15,6 +15,7 @@
   * `ValidIdsFor` — the property's own validity predicate for identifiers (PiPack).
 -/
 import SSEPyVerif.Proofs.Schemes.ChainCfg
+import SSEPyVerif.Proofs.Schemes.SSE2
 namespace SSEPy.C01
 open SSEPy.Sch SSEPy.Sch.Chain
 
@@ -47,5 +48,46 @@ theorem PiPack.search_stored (raw : RawCfg) (cfg : ChainCfg) (hcfg : PiPack.cfgB
   have := hnc L hL
   exact search_present cfg lv (PiPack.dec_enc raw cfg hcfg lv hl) K db t t' L hL this.labels_distinct w ids hm
     (PiPack.roundTrip raw cfg hcfg ids hv) (this.end_fresh w ids hm)
+
+/-- SSE-2 (schemes/CGKO06/SSE2): the hypotheses are about this run's PRP values — the addresses of the stored postings
+    are pairwise distinct and the address one past a list's end is not a stored address (both follow from the PRP being a
+    permutation, C15, on the distinct inputs `w ‖ j`) — and about capacity: the token has at least as many entries as
+    the list (`param_n` = number of distinct files ≥ any duplicate-free list) and no identifier occurs under more than
+    `param_max` keywords (the filler loop does not run). -/
+theorem SSE2.search_stored (cfg : SSE2Cfg) (lv : Leaves) (K1 : Bytes) (db : DB) (I : ITable)
+    (hs : SSE2.setup cfg lv K1 db = .ok I) (hkeys : (db.map (·.1)).Nodup) (hinj : SSE2.AddrInj cfg lv K1 db)
+    (hcap : ∀ I0 cnt, SSE2.encDb cfg lv K1 db [] [] = .ok (I0, cnt) → ∀ p ∈ cnt, p.2 ≤ cfg.max)
+    (w : Bytes) (ids : List Bytes) (hm : (w, ids) ∈ db) (hn : ids.length ≤ cfg.n.toNat)
+    (hend : ids.length < cfg.n.toNat →
+      ∀ a, SSE2.addr cfg lv K1 w ((1 + ids.length : Nat) : Int) = .ok a → ¬ SSE2.IsStored cfg lv K1 db a)
+    (tk : List Nat) (htk : SSE2.token cfg lv K1 w = .ok tk) : SSE2.search I tk = ids := by
+  unfold SSE2.setup at hs
+  simp only [bind, Except.bind] at hs
+  split at hs
+  · cases hs
+  · rename_i r hr
+    obtain ⟨I0, cnt⟩ := r
+    have hI : I = I0 := by
+      simp only at hs
+      split at hs
+      · rw [SSE2.fillAll_noop cfg lv K1 cnt _ I0 (hcap I0 cnt hr)] at hs; cases hs; rfl
+      · simp only [pure, Except.pure] at hs; cases hs; rfl
+    subst hI
+    obtain ⟨l1, l2⟩ := SSE2.encDb_lookup cfg lv K1 db [] [] I cnt hr hkeys hinj
+    obtain ⟨tl, tg⟩ := SSE2.tokenLoop_get cfg lv K1 w cfg.n.toNat 1 tk htk
+    apply SSE2.search_prefix
+    · intro i hi
+      obtain ⟨a, ha, hl⟩ := l1 w ids hm i hi
+      obtain ⟨a', ha', hg⟩ := tg i (by omega)
+      rw [ha] at ha'; cases ha'
+      exact ⟨a, hg, hl⟩
+    · by_cases he : ids.length = cfg.n.toNat
+      · left; omega
+      · right
+        have hlt : ids.length < cfg.n.toNat := by omega
+        obtain ⟨a, ha, hg⟩ := tg ids.length hlt
+        refine ⟨a, hg, ?_⟩
+        rw [l2 a (hend hlt a ha)]
+        rfl
 
 end SSEPy.C01
